@@ -81,10 +81,17 @@ func (w *World) errFor(op, out string) error {
 	case "retriable":
 		return fmt.Errorf("%s: %w", op, errRetriable)
 	case "permanent":
-		// alternately a flat permanent error and a marker around an error that is transient underneath
+		// in turn: a marker around an error that is transient underneath, a permanent error caused by a deadline, a flat permanent error
+		// (which form: by the position in the run's history, so that every form occurs as a run's first
+		// permanent error)
 		w.nPerm++
-		if w.nPerm%2 == 1 {
+		switch len(w.Log) % 3 {
+		case 1:
 			return &markedPermanent{inner: fmt.Errorf("%s: %w", op, errRetriable)}
+		case 2:
+			// a permanent refusal whose cause is a deadline (the backend knows that retrying cannot help,
+			// e.g. the submission may have landed): whether to retry is the backend's call, not the error type's
+			return fmt.Errorf("%s: %w: %w", op, errPermanent, context.DeadlineExceeded)
 		}
 		return fmt.Errorf("%s: %w", op, errPermanent)
 	case "conflict":
